@@ -18,6 +18,12 @@ namespace tapkee_internal
 __TAPKEE_IMPLEMENTATION(LinearLocalTangentSpaceAlignment)
     void validate()
     {
+        // there are only as many projection directions as features
+        parameters[target_dimension].checked().satisfies(InClosedRange<IndexType>(1, current_dimension)).orThrow();
+        // a tangent space is spanned by eigenvectors of a num_neighbors x num_neighbors local Gram matrix
+        parameters[target_dimension].checked()
+            .satisfies(InClosedRange<IndexType>(1, static_cast<IndexType>(parameters[num_neighbors])))
+            .orThrow();
     }
 
     TapkeeOutput embed()
